@@ -76,9 +76,17 @@ func TestFault(t *testing.T) {
 			out.End(l)
 		}
 	}
-	for b := 0; b < bases; b++ {
+	for b := 0; b <= bases; b++ {
 		base := GenFaultBase(rec.Mix(seed, fmt.Sprintf("faultbase/%d", b)), b)
 		base.Name = fmt.Sprintf("base/%d", b)
+		if b == bases {
+			// one more base: a target that falls more than a thousand entries behind after its first acknowledgements
+			// (the sender's proxy-id table wraps and grows with a non-zero head) - breaks while that backlog is held
+			base = GenBacklog(rec.Mix(seed, "faultbase/backlog"), 0)
+			base.Name = "base/backlog"
+		}
+		// the backlog base is explored with the quick tier's position set in both tiers (its runs are long)
+		full := rec.Thorough() && b < bases
 		// every child runs the base once to learn the event counts (its own case only in child 0)
 		o0 := runInBubble(t, base)
 		if o0 == nil {
@@ -110,7 +118,7 @@ func TestFault(t *testing.T) {
 		for _, k := range keys {
 			parts := strings.Split(k, "|")
 			max := cnt[k]
-			if max > 14 && !rec.Thorough() {
+			if max > 14 && !full {
 				max = 14 // periodic acks/keep-alives repeat: later positions add little
 			}
 			if max > 40 {
@@ -119,7 +127,7 @@ func TestFault(t *testing.T) {
 			for n := 1; n <= max; n++ {
 				for _, side := range []string{"target", "source"} {
 					for ri, rc := range reconnects {
-						if !rec.Thorough() && ri != n%len(reconnects) {
+						if !full && ri != n%len(reconnects) {
 							continue
 						}
 						single = append(single, Fault{Side: side, Stream: parts[0], Kind: parts[1], N: n, ReconnectMS: rc})
@@ -172,14 +180,14 @@ func TestFault(t *testing.T) {
 			runFault(fmt.Sprintf("b%d/%s/%s/%s/%d/r%d", b, f.Side, f.Stream, f.Kind, f.N, f.ReconnectMS), []Fault{f})
 			// the same break with the dying sender held for 1.5 s between closing its delivery channel and
 			// deregistering it: hand-offs for that target land on the closed, still registered channel
-			if f.Side == "target" && (rec.Thorough() || fi%4 == 0) {
+			if f.Side == "target" && (full || fi%4 == 0) {
 				parkWindow = true
 				runFault(fmt.Sprintf("b%d/%s/%s/%s/%d/r%d/closed-channel-window", b, f.Side, f.Stream, f.Kind, f.N, f.ReconnectMS), []Fault{f})
 				parkWindow = false
 			}
 		}
 		// double faults: a second break during the recovery from the first
-		if doubles > 0 && len(single) > 1 {
+		if doubles > 0 && len(single) > 1 && b < bases {
 			per := doubles / bases
 			for d := 0; d < per; d++ {
 				h := rec.Mix(seed, fmt.Sprintf("double/%d/%d", b, d))
